@@ -3,6 +3,10 @@
 import json, subprocess
 
 CHECKS = {
+ "C07": dict(level="exploration", design="§3 C07",
+   technique="exhaustive enumeration of a blocker matrix (all assignments within a Hamming radius of the all-clear vector) through the real disruption controller, per method and with all methods",
+   text="A two-node world in which node A is otherwise disruptable by every method. Nine blocker factors (managed, lifecycle stage, deleting/marked, nomination window open/expired, node annotation, nine pod-protection variants incl. duration-valued / terminal / terminating / PDB / two PDBs, Consolidatable true/false/absent, pool policy incl. static, terminationGracePeriod) x contents {empty, one pod} x drifted: every assignment with <=2 (quick) / <=3 (thorough) factors away from all-clear is run through the real disruption controller once per method and once with all five methods; node A must never be a candidate of a method for which the statement's conjunction (recomputed from the factor values) forbids it. Non-vacuity is measured: every method selects A in the all-clear cases.",
+   note="Capacity-buffer placements are not modelled (feature gate off). Trusted: the harness's encoding of the statement in c07Case.mustNotSelect."),
  "C15": dict(level="exploration", design="§3 C15",
    technique="exhaustive enumeration of single-field NodePool edits (hash) and of validated NodePool requirement atoms x pods x every permitted launch through the real hash, provisioning, lifecycle and drift controllers",
    text="(a) Three base templates x every single-field edit of a closed list (template labels, annotations, taints, startupTaints, nodeClassRef, terminationGracePeriod in {unset,0s,30s,1m}, expireAfter in {Never,0s,10m,1h}; budgets, requirements, limits, weight, consolidation settings, list/map order, metadata/status): hashed edits must change NodePool.Hash(), the others must not. (b) Every satisfiable single-requirement NodePool on a custom / provider key x pods constraining the key: real hash controller -> provisioner -> NodeClaim -> real lifecycle controller under EVERY permitted launch (up to 4 quick / 12 thorough) -> real nodeclaim.disruption controller: never Drifted when fresh or two hours later, RequirementsDrifted when the pool is edited to exclude the node's zone (and cleared when restored), NodePoolDrifted after a hashed edit and a real hash-controller run, never across hash versions.",
